@@ -224,6 +224,9 @@ fn request_stream(tier: Tier, seed: u64) -> (Vec<Request>, Vec<(&'static str, us
             1 => generate(gfault(), tier.pick(20_000, 400_000) / chunks, s, &mut out, |c| inject(&c).map(|f| Request::Parse(f.text))),
             2 => generate(gsoup(), tier.pick(20_000, 400_000) / chunks, s, &mut out, |s| Some(Request::Parse(s))),
             3 => generate(gcorpus_mut(), tier.pick(20_000, 400_000) / chunks, s, &mut out, |s| Some(Request::Parse(s))),
+            5 => generate(crate::props::c07::gpieces(), tier.pick(20_000, 400_000) / chunks, s, &mut out, |c| {
+                Some(Request::Parse(crate::props::c07::strings_for(&c, if c.pieces.len() % 2 == 0 { "t" } else { "golang" })))
+            }),
             _ => {
                 let ty = proptest::prop_oneof![
                     2 => gtype(),
@@ -245,7 +248,7 @@ fn request_stream(tier: Tier, seed: u64) -> (Vec<Request>, Vec<(&'static str, us
         }
         out
     };
-    let jobs: Vec<(usize, usize)> = (0..5).flat_map(|k| (0..chunks).map(move |c| (k, c))).collect();
+    let jobs: Vec<(usize, usize)> = [0usize, 1, 2, 3, 5, 4].iter().flat_map(|k| (0..chunks).map(move |c| (*k, c))).collect();
     let results: Vec<Vec<Request>> = std::thread::scope(|scope| {
         let hs: Vec<_> = jobs.iter().map(|(k, c)| { let g = &gen_strings; scope.spawn(move || g(*k, *c)) }).collect();
         hs.into_iter().map(|h| h.join().unwrap_or_default()).collect()
